@@ -952,7 +952,8 @@ FUZZ_TOKENS = [b'0', b'-1', b'abc', b'1_0', b'=', b', ', b' ', b'\r\n', b'\n', b
                b'parent_section=1', b'self=1', b'changes=1', b'meta_section=1', b'_content=1', b'content=1',
                b'section_id=1', b'_level=1', b'subsections=1', b'base64', b'undefined', b'utf-8-sig', b'UTF-32',
                b'#diffx: version=1.0\n', b'#.change:\n', b'#...meta: length=3\n{}\n', b'    ', b'indent=4294967295',
-               b'indent=-1', b'line_endings=5', b'encoding=5', b'mimetype=x', b'type=x', b'diff_type=text']
+               b'indent=-1', b'line_endings=5', b'encoding=5', b'mimetype=x', b'type=x', b'diff_type=text',
+               b'9' * 4300, b'9' * 4301, b'-' + b'1' * 4301, b'0' * 5000, b'x=' + b'7' * 4400, b'length=' + b'3' * 4310]
 MODELLED_CANON = {'ascii', 'iso8859-1', 'utf-8', 'utf-8-sig', 'utf-16', 'utf-16-le', 'utf-16-be', 'utf-32', 'utf-32-le',
                   'utf-32-be'}
 _ENC_RE = _re.compile(rb'encoding=([^\s,]+)')
